@@ -108,20 +108,44 @@ impl V for char {
     fn dup(&self) -> Self { *self }
     fn name() -> String { "char".into() }
 }
+thread_local! {
+    /// C13 only: every NaN is one value (the stable hash normalises NaNs);
+    /// C12 compares floats bit by bit
+    pub static NAN_IS_ONE_VALUE: std::cell::Cell<bool> = const { std::cell::Cell::new(false) };
+}
+/// quiet, negative quiet, quiet with payload, signalling, negative signalling
+pub const NANS32: [u32; 5] = [0x7fc0_0000, 0xffc0_0000, 0x7fc0_1234, 0x7fa0_0000, 0xff80_0001];
+pub const NANS64: [u64; 5] = [
+    0x7ff8_0000_0000_0000,
+    0xfff8_0000_0000_0000,
+    0x7ff8_0000_0000_1234,
+    0x7ff0_0000_0000_0001,
+    0xfff4_0000_0000_0000,
+];
 impl V for f32 {
     fn gen_v(r: &mut Rng, _d: u32) -> Self {
+        if r.chance(1, 4) {
+            return f32::from_bits(*r.pick(&NANS32));
+        }
         *r.pick(&[0.0, -0.0, 1.5, f32::MAX, f32::MIN_POSITIVE, f32::INFINITY, f32::NEG_INFINITY, f32::NAN, 1e-40])
     }
-    fn same(&self, o: &Self) -> bool { self.to_bits() == o.to_bits() }
+    fn same(&self, o: &Self) -> bool {
+        self.to_bits() == o.to_bits() || (NAN_IS_ONE_VALUE.with(std::cell::Cell::get) && self.is_nan() && o.is_nan())
+    }
     fn near(&self, _r: &mut Rng) -> Self { if self.to_bits() == 3.25f32.to_bits() { 3.5 } else { 3.25 } }
     fn dup(&self) -> Self { *self }
     fn name() -> String { "f32".into() }
 }
 impl V for f64 {
     fn gen_v(r: &mut Rng, _d: u32) -> Self {
+        if r.chance(1, 4) {
+            return f64::from_bits(*r.pick(&NANS64));
+        }
         *r.pick(&[0.0, -0.0, 1.5, f64::MAX, f64::MIN_POSITIVE, f64::INFINITY, f64::NEG_INFINITY, f64::NAN, 5e-324])
     }
-    fn same(&self, o: &Self) -> bool { self.to_bits() == o.to_bits() }
+    fn same(&self, o: &Self) -> bool {
+        self.to_bits() == o.to_bits() || (NAN_IS_ONE_VALUE.with(std::cell::Cell::get) && self.is_nan() && o.is_nan())
+    }
     fn near(&self, _r: &mut Rng) -> Self { if self.to_bits() == 3.25f64.to_bits() { 3.5 } else { 3.25 } }
     fn dup(&self) -> Self { *self }
     fn name() -> String { "f64".into() }
